@@ -1133,7 +1133,7 @@ def m_flatten_reshape(g):
 def m_random(g):
     """Genuinely nondeterministic ops: must be preserved (never folded); values are not compared, only dtype/shape
     and the fact that two runs still differ."""
-    form = g.rng.choice(["uniform", "normal_like", "dropout_train", "uniform_const_chain"])
+    form = g.rng.choice(["uniform", "normal_like", "dropout_train", "uniform_const_chain", "bernoulli_const", "dropout_train_const"])
     g.hit("motif:random:" + form)
     g._mark_nondet = True
     try:
@@ -1144,6 +1144,16 @@ def m_random(g):
             r0 = g.add("RandomNormal", [], shape=[32], dtype=TP.FLOAT, mag=10, clean=True)
             g._mark_nondet = False
             r = g.add("Mul", [r0, g.const(np.array(2.0, dtype=F32))], mag=20)
+        elif form == "bernoulli_const":
+            # all inputs constant (probabilities): only the nondeterminism guard keeps this from being folded
+            if g.opset < 15:
+                raise Bail("opset")
+            r = g.add("Bernoulli", [g.const(np.full((32,), 0.5, dtype=F32))], mag=1, clean=True)
+        elif form == "dropout_train_const":
+            # all inputs constant and training_mode=True: must not be folded into one fixed draw
+            if g.opset < 12:
+                raise Bail("opset")
+            r = g.add("Dropout", [g.const(np.full((32,), 2.0, dtype=F32)), g.const(np.array(0.5, dtype=F32)), g.const(np.array(True))], mag=4)
         elif form == "normal_like":
             x = g.pick(lambda v: _f32(v) and v.static() and all(a.size >= 16 for a in v.arrs))
             r = g.add("RandomNormalLike", [x], mag=10, clean=True)
